@@ -195,7 +195,7 @@ def tie(chk, cid, specs, imports, names_for=None):
             f.write("Local Open Scope num_scope.\n")
             f.write("(* python: %s *)\n" % pysrc.replace("*)", "* )"))
             f.write("Definition %s {T : Type} {O : NumOps T} (%s : T) : T :=\n  %s.\n" % (src_name, argdecl, body))
-            f.write("Lemma %s_tie : forall (J : Junk) (%s : R),\n  %s (O:=R_ops J) %s = (%s).\n" % (
+            f.write("Lemma %s_tie : forall (J : Junk) (%s : R),\n  %s (O:=R_ops J) %s = (%s)%%R.\n" % (
                 src_name, argdecl, src_name, argdecl,
                 re.sub(r"\b(%s)\b" % "|".join(re.escape(a) for a in args), lambda m: m.group(0), model_expr)
                 .replace("@@", "(O:=R_ops J)")))
